@@ -97,6 +97,21 @@ LEAVES = [
     T('assign/augmented-name', 'stmt', 'hitcount_ -= 1', [A]),
     T('assign/annotated', 'stmt', 'q: int = 1', [A]),
     T('assign/walrus', 'expr', '(q := 1)', [A]),
+    # every mix of target kinds, in both orders (each is also the LAST statement of its program)
+    T('assign/chained-name-then-attribute', 'stmt', 'q = S.attr = 1', [A]),
+    T('assign/chained-attribute-then-name', 'stmt', 'S.attr = q = 1', [A]),
+    T('assign/chained-name-then-subscript', 'stmt', 'q = S.d[0] = 7', [A]),
+    T('assign/chained-subscript-then-name', 'stmt', 'S.d[1] = q = 7', [A]),
+    T('assign/chained-name-then-tuple', 'stmt', 'q = (r, s) = (1, 2)', [A]),
+    T('assign/chained-tuple-then-name', 'stmt', '(r, s) = q = (1, 2)', [A]),
+    T('assign/chained-name-then-starred-list', 'stmt', 'q = [r, *s] = [1, 2, 3]', [A]),
+    T('assign/chained-name-slice-name', 'stmt', 'q = S.l[0:1] = r = [9, 9]', [A]),
+    T('assign/chained-attribute-then-subscript', 'stmt', 'S.attr = S.d[0] = 3', [A]),
+    T('assign/chained-mixed-value-evaluated-once', 'stmt', 'q = S.attr = S.d[S.n] = S.f(2)', [A, K]),
+    T('assign/starred-target', 'stmt', 'q, *r = [1, 2, 3]', [A]),
+    T('assign/nested-tuple-target', 'stmt', '(q, (r, s)) = (1, (2, 3))', [A]),
+    T('assign/tuple-of-attribute-and-name', 'stmt', 'S.attr, q = 1, 2', [A]),
+    T('assign/slice-target', 'stmt', 'S.l[0:1] = [9, 9]', [A]),
     T('condition/if', 'stmt', 'if S.t:\n  S.n', [C]),
     T('condition/if-else', 'stmt', 'if S.f0:\n  S.n\nelif S.t:\n  S.n\nelse:\n  S.n', [C]),
     T('condition/match', 'stmt', 'match S.n:\n  case 1:\n    S.n\n  case _:\n    S.t', [C]),
@@ -105,7 +120,7 @@ LEAVES = [
     T('loop/while', 'stmt', 'while S.once:\n  S.n', [L]),
     T('loop/async-for', 'stmt', 'async for _ in S.one:\n  S.n', [L], needs='async'),
     T('call/no-args', 'expr', 'S.f()', [K]),
-    T('call/args-and-keywords', 'expr', 'S.f(1, *S.one, k=2, **S.d0)', [K]),
+    T('call/args-and-keywords', 'expr', 'S.f(1, *S.one, k=2)', [K]),
     T('call/builtin', 'expr', 'len(S.two)', [K]),
     T('call/method-chain', 'expr', 'S.two.copy().count(0)', [K]),
     T('exception/try-except', 'stmt', 'try:\n  S.n\nexcept KeyError:\n  S.t', [X]),
@@ -125,8 +140,6 @@ LEAVES = [
     T('import/from', 'stmt', 'from math import pi', [I]),
     T('import/from-star', 'stmt', 'from math import *', [I]),
 ]
-# `S.d0` is not defined on the sentinel on purpose for the **-call leaf? keep it defined:
-LEAVES[17].src = 'S.f(1, *S.one, k=2)'
 
 # Forms whose gating the statement leaves to interpretation (own driver).
 EXT_LEAVES = [
@@ -320,6 +333,8 @@ def _norm(v):
     return ('exception', type(v).__name__, str(v))
   if isinstance(v, str):
     return re.sub(r' at 0x[0-9a-f]+', '', v)
+  if isinstance(v, float) and v != v:
+    return ('float', 'nan')          # equal to itself also after a trip through pickle
   if isinstance(v, (int, float, bool, bytes, type(None))):
     return v
   return ('object', type(v).__name__)
@@ -360,7 +375,7 @@ def reference(src, extra_globals=None):
   g.update(extra_globals or {})
   before = dict(g)
   out = io.StringIO()
-  res = dict(outcome='ok', lineno=None, result=('<none>',))
+  res = dict(outcome='ok', lineno=None, result=('<none>',), message=None)
   try:
     tree = ast.parse(src)
     last = tree.body[-1] if tree.body else None
@@ -374,11 +389,13 @@ def reference(src, extra_globals=None):
         if isinstance(last, ast.Assign) and all(isinstance(t, ast.Name) for t in last.targets):
           res['result'] = _norm(g[last.targets[0].id])
   except SyntaxError as e:
-    res.update(outcome=type(e).__name__, lineno={e.lineno})
+    res.update(outcome=type(e).__name__, lineno={e.lineno}, message=_norm(str(e)))
   except Exception as e:  # pylint: disable=broad-except
     lns = [fr.lineno for fr in traceback.extract_tb(e.__traceback__) if fr.filename == '<ref>']
-    # position = line of the failing top-level statement or of the innermost frame
-    res.update(outcome=type(e).__name__, lineno=({lns[0], lns[-1]} if lns else None))
+    # position = line of the failing top-level statement or of the innermost frame OF THE PROGRAM
+    # (frames of other code the program calls into are not positions in the program)
+    res.update(outcome=type(e).__name__, lineno=({lns[0], lns[-1]} if lns else None),
+               message=_norm(str(e)))
   res['stdout'] = out.getvalue()
   res['vars'] = {k: _norm(v) for k, v in g.items()
                  if k != '__builtins__' and (k not in before or v is not before[k])}
@@ -386,13 +403,38 @@ def reference(src, extra_globals=None):
   return res
 
 
+_EV = 'pg.coding.evaluate(CODE, global_vars=G, outputs_intermediate=True%s)'
+_RUN = 'pg.coding.run(CODE, global_vars=G, outputs_intermediate=True, sandbox=False%s)'
+# Every entry point grants exactly PERM (an explicit argument and an enclosing
+# scope combine to their intersection; ALL is the neutral element).
+# name -> (expression, mode); mode: what the call returns ('dict' | 'stdout' | 'result').
 API_SRC = {
-    'evaluate(permission=)': 'pg.coding.evaluate(CODE, global_vars=G, permission=PERM, outputs_intermediate=True)',
-    'permission-scope+evaluate': 'with_scope(PERM, lambda: pg.coding.evaluate(CODE, global_vars=G, outputs_intermediate=True))',
-    'run(sandbox=False)': 'pg.coding.run(CODE, global_vars=G, permission=PERM, outputs_intermediate=True, sandbox=False)',
-    'permission-scope+context+evaluate': 'with_scope(PERM, lambda: with_context(G, lambda: pg.coding.evaluate(CODE, outputs_intermediate=True)))',
+    'evaluate(permission=)': (_EV % ', permission=PERM', 'dict'),
+    'permission-scope+evaluate': ('with_scope(PERM, lambda: %s)' % (_EV % ''), 'dict'),
+    'run(sandbox=False)': (_RUN % ', permission=PERM', 'dict'),
+    'permission-scope+context+evaluate': (
+        'with_scope(PERM, lambda: with_context(G, lambda: pg.coding.evaluate(CODE, outputs_intermediate=True)))',
+        'dict'),
+    'wider-scope+evaluate(permission=)': ('with_scope(ALL, lambda: %s)' % (_EV % ', permission=PERM'), 'dict'),
+    'permission-scope+evaluate(permission=ALL)': ('with_scope(PERM, lambda: %s)' % (_EV % ', permission=ALL'), 'dict'),
+    'permission-scope+run()': ('with_scope(PERM, lambda: %s)' % (_RUN % ''), 'dict'),
+    'wider-scope+run(permission=)': ('with_scope(ALL, lambda: %s)' % (_RUN % ', permission=PERM'), 'dict'),
+    'permission-scope+run(permission=ALL)': ('with_scope(PERM, lambda: %s)' % (_RUN % ', permission=ALL'), 'dict'),
+    # scope and argument each grant something the other does not: PERM is their intersection
+    'overlapping-scope+evaluate(permission=)': ('with_scope(PERM_X, lambda: %s)' % (_EV % ', permission=PERM_Y'), 'dict'),
+    'overlapping-scope+run(permission=)': ('with_scope(PERM_X, lambda: %s)' % (_RUN % ', permission=PERM_Y'), 'dict'),
+    'evaluate(returns_stdout=True)': (
+        'pg.coding.evaluate(CODE, global_vars=G, permission=PERM, returns_stdout=True)', 'stdout'),
+    'evaluate(result-only)': ('pg.coding.evaluate(CODE, global_vars=G, permission=PERM)', 'result'),
+    'wider-scope+run(result-only)': (
+        'with_scope(ALL, lambda: pg.coding.run(CODE, global_vars=G, permission=PERM, sandbox=False))', 'result'),
 }
 APIS = list(API_SRC)
+BASE_API = 'evaluate(permission=)'
+DICT_APIS = [a for a in APIS if API_SRC[a][1] == 'dict']
+
+
+NOT_RETURNED = ('<not-returned-by-this-entry-point>',)
 
 
 def with_scope(perm, fn):
@@ -405,21 +447,39 @@ def with_context(g, fn):
     return fn()
 
 
+def overlapping(perm):
+  """(x, y) with x & y == perm, neither contained in the other when perm lacks >= 2 flags."""
+  rest = [f for f in FLAGS if not f & perm]
+  return perm | perm_of(rest[::2]), perm | perm_of(rest[1::2])
+
+
 def library(src, perm, api, extra_globals=None):
-  """Runs through pg.coding: dict(outcome, stdout, vars, log, lineno, result, cause)."""
+  """Runs through pg.coding: dict(outcome, stdout, vars, log, lineno, result, cause, ...).
+
+  Fields the entry point does not return are NOT_RETURNED (not judged)."""
   s = Sentinel()
   g = {'S': s, 'hitcount_': 0}
   g.update(extra_globals or {})
-  env = dict(pg=pg, CODE=src, G=g, PERM=perm, with_scope=with_scope, with_context=with_context)
-  res = dict(outcome='ok', lineno=None, result=('<none>',), stdout='', vars={}, cause=None)
+  expr, mode = API_SRC[api]
+  px, py = overlapping(perm)
+  env = dict(pg=pg, CODE=src, G=g, PERM=perm, ALL=perm_of(FLAGS), PERM_X=px, PERM_Y=py,
+             with_scope=with_scope, with_context=with_context)
+  res = dict(outcome='ok', lineno=None, end_lineno=None, result=('<none>',), stdout='', vars={},
+             cause=None, message=None, code=None, mode=mode)
   try:
-    out = eval(API_SRC[api], env)  # pylint: disable=eval-used
-    res['stdout'] = out.pop('__stdout__', '')
-    if '__result__' in out:
-      res['result'] = _norm(out.pop('__result__'))
-    res['vars'] = {k: _norm(v) for k, v in out.items()}
+    out = eval(expr, env)  # pylint: disable=eval-used
+    if mode == 'dict':
+      res['stdout'] = out.pop('__stdout__', '')
+      if '__result__' in out:
+        res['result'] = _norm(out.pop('__result__'))
+      res['vars'] = {k: _norm(v) for k, v in out.items()}
+    elif mode == 'stdout':
+      res.update(stdout=out, vars=NOT_RETURNED, result=NOT_RETURNED)
+    else:
+      res.update(stdout=NOT_RETURNED, vars=NOT_RETURNED, result=_norm(out))
   except pg.coding.CodeError as e:
-    res.update(outcome='CodeError', cause=type(e.cause).__name__, lineno=e.lineno)
+    res.update(outcome='CodeError', cause=type(e.cause).__name__, lineno=e.lineno,
+               end_lineno=e.end_lineno, message=_norm(str(e.cause)), code=e.code)
   except BaseException as e:  # pylint: disable=broad-except
     res.update(outcome='raised-' + type(e).__name__, cause=type(e).__name__)
   res['log'] = _norm(s.log + [('final', dict(s.d), list(s.l))]) if s.log else []
@@ -438,7 +498,7 @@ WIT_SAME = ("ref = m.reference(code)\n"
             "assert m.same_execution(ref, r) is None, m.same_execution(ref, r)\n")
 
 
-def same_execution(ref, got, judge_result=True):
+def same_execution(ref, got, judge_result=True, judge_log=True):
   """None when the library run equals plain exec, else a description."""
   if ref['outcome'] == 'ok':
     if got['outcome'] != 'ok':
@@ -448,16 +508,19 @@ def same_execution(ref, got, judge_result=True):
       return f"exec raises {ref['outcome']}, library outcome {got['outcome']}"
     if got['cause'] != ref['outcome']:
       return f"exec raises {ref['outcome']}, CodeError.cause is {got['cause']}"
+    if ref.get('message') is not None and got.get('message') is not None and got['message'] != ref['message']:
+      return f"exec raises {ref['outcome']}({ref['message']!r}), CodeError.cause is {got['cause']}({got['message']!r})"
     if ref['lineno'] is not None and got['lineno'] not in ref['lineno']:
       return f"{ref['outcome']} raised at line {sorted(ref['lineno'])}, CodeError.lineno = {got['lineno']}"
-  if got['log'] != ref['log']:
+  if judge_log and got['log'] != ref['log']:
     return f"side effects differ: exec {ref['log']!r}, library {got['log']!r}"
   if ref['outcome'] == 'ok':
-    if got['stdout'] != ref['stdout']:
+    if got['stdout'] != NOT_RETURNED and got['stdout'] != ref['stdout']:
       return f"stdout differs: exec {ref['stdout']!r}, library {got['stdout']!r}"
-    if got['vars'] != ref['vars']:
+    if got['vars'] != NOT_RETURNED and got['vars'] != ref['vars']:
       return f"variables differ: exec {ref['vars']!r}, library {got['vars']!r}"
-    if judge_result and ref['result'] != ('<none>',) and got['result'] != ref['result']:
+    if (judge_result and got['result'] != NOT_RETURNED and ref['result'] != ('<none>',)
+        and got['result'] != ref['result']):
       return f"result differs: exec {ref['result']!r}, library {got['result']!r}"
   return None
 
@@ -476,14 +539,15 @@ def _last_stmt(src):
   last = ast.parse(src).body[-1]
   name = type(last).__name__
   if isinstance(last, ast.Assign):
-    name += '(names)' if all(isinstance(t, ast.Name) for t in last.targets) else '(other-targets)'
+    names = [isinstance(t, ast.Name) for t in last.targets]
+    name += '(names)' if all(names) else '(chain-of-names-and-other-targets)' if any(names) else '(other-targets)'
   if isinstance(last, ast.AnnAssign) and last.value is None:
     name += '(no-value)'
   return name
 
 
 def _diff_kind(msg):
-  for k in ('side effects', 'stdout', 'variables', 'result', 'CodeError.cause', 'CodeError.lineno',
+  for k in ('side effects', 'stdout', 'variables', 'result', 'CodeError.lineno', 'CodeError.cause',
             'exec succeeds', 'library outcome'):
     if k in msg:
       return k.replace(' ', '-')
@@ -497,6 +561,15 @@ class Checker:
     self.rec = rec
     self.baseline_bad = set()      # (leaf name, flag) not refused at top level
 
+  def learn_baseline(self, leaves):
+    """So that nested ids point at the leaf when the leaf itself is ungated."""
+    for leaf in leaves:
+      prog = assemble([leaf.name] if leaf.needs != 'async' else ['async-def-body', leaf.name])
+      for f in leaf.hard:
+        got = library(prog[0], ALL & ~f, BASE_API)
+        if not (got['outcome'] == 'CodeError' and got['log'] == []):
+          self.baseline_bad.add((leaf.name, f))
+
   def refusal(self, chain, src, hard, perm, api, where):
     missing = [f for f in FLAGS if f in hard and not f & perm]
     got = library(src, perm, api)
@@ -506,14 +579,19 @@ class Checker:
     owner = next((t for t in reversed(ts) if any(f in t.hard for f in missing)), ts[-1])
     if len(ts) == 1 or (owner.name, missing[0]) in self.baseline_bad or owner is not ts[-1]:
       cid = f'refuse/{NAMES[missing[0]]}/{owner.name}'
-      if not ok and len(ts) == 1:
+      if not ok and len(ts) == 1 and api == BASE_API:
         self.baseline_bad.add((owner.name, missing[0]))
     else:
       cid = f'refuse-nested/{NAMES[missing[0]]}/inside-{ts[-2].name}'
     if got['outcome'] == 'CodeError' and got['cause'] == 'SyntaxError' and got['log']:
       cid += '/refused-after-partial-execution'
+    if not ok and api != BASE_API:
+      # the same program and grant through the plain entry point: is it this entry point's fault?
+      base = library(src, perm, BASE_API)
+      if base['outcome'] == 'CodeError' and base['log'] == []:
+        cid = f'refuse/entry-point:{api}'
     self.rec.case(cid, (where, tuple(chain), perm.value, api), ok=ok,
-                  message=(f"granted {perm_src(perm)}, needs {[NAMES[f] for f in sorted(hard, key=FLAGS.index)]}: "
+                  message=(f"{api}, granted {perm_src(perm)}, needs {[NAMES[f] for f in sorted(hard, key=FLAGS.index)]}: "
                            f"outcome {got['outcome']}({got['cause']}), side effects {got['log']!r}; code {src!r}"),
                   witness=_wit(src, perm, api, WIT_REFUSED))
     return ok
@@ -529,8 +607,10 @@ class Checker:
       cid = f'run-equals-exec/last-statement-not-executed-as-statement:{last}'
     if msg and got['outcome'] == 'CodeError' and got['cause'] == 'SyntaxError' and ref['outcome'] not in ('SyntaxError', 'IndentationError'):
       cid = f'run-equals-exec/granted-program-refused/{chain[-1] if chain else "program"}'
+    if msg and api != BASE_API and same_execution(ref, library(src, perm, BASE_API)) is None:
+      cid = f'run-equals-exec/entry-point:{api}/{_diff_kind(msg)}'
     self.rec.case(cid, (where, tuple(chain), perm.value, api), ok=msg is None,
-                  message=f'granted {perm_src(perm)}: {msg}; code {src!r}',
+                  message=f'{api}, granted {perm_src(perm)}: {msg}; code {src!r}',
                   witness=_wit(src, perm, api, WIT_SAME))
     return msg is None
 
@@ -557,11 +637,13 @@ def _tail(src):
 
 def _refusal_driver(rec, leaves, tier, seed, where):
   chk = Checker(rec)
+  chk.learn_baseline(leaves)
   r = rng(seed, 'c19-' + where)
+  r_api = rng(seed, 'c19-api-' + where)
   quick = tier == 'quick'
   for n, (chain, (src, hard, soft)) in enumerate(_programs_depth1(leaves)):
     need = perm_of(hard | soft)
-    api = APIS[(n + seed) % len(APIS)]
+    api = r_api.choice(APIS)
     if quick or len(chain) > 1 and n % 4:
       perms = [ALL & ~f for f in hard] + [need & ~f for f in hard] + [P(0), need, ALL]
       perms += [perm_of(r.sample(FLAGS, r.randrange(1, 8))) for _ in range(2)]
@@ -573,7 +655,7 @@ def _refusal_driver(rec, leaves, tier, seed, where):
       if perm.value in seen:
         continue
       seen.add(perm.value)
-      a = APIS[(n + k + seed) % len(APIS)] if not quick else api
+      a = r_api.choice(APIS) if not quick else api
       if any(not f & perm for f in hard):
         chk.refusal(chain, src, hard, perm, a, where)
         if k % 5 == 0:       # the same with more code behind the forbidden construct
@@ -596,8 +678,10 @@ def drv_refusal_every_position(tier, seed):
              + ('ALL minus each needed flag, needed minus each flag, empty, exactly needed, ALL, 2 random'
                 if tier == 'quick' else 'all 256 subsets for top-level leaves and a quarter of the '
                 'nested programs, the quick selection otherwise')
-             + '; 4 entry points (evaluate(permission=), permission scope, run(sandbox=False), '
-             'scope+context); side-effect sentinel first statement; granted runs compared with exec '
+             + f'; {len(APIS)} ways of granting exactly that set (rotating): permission= argument, enclosing '
+             'scope, both (wider scope + argument, scope + wider argument, overlapping scope and '
+             'argument whose intersection is the set), through evaluate and run(sandbox=False), with '
+             'global_vars or pg.coding.context, returning the dict / stdout / the result only; side-effect sentinel first statement; granted runs compared with exec '
              '(outcome, cause, line, stdout, variables, access log), with and without a trailing statement'))
   return _refusal_driver(rec, LEAVES, tier, seed, 'core')
 
@@ -629,13 +713,7 @@ def drv_refusal_deep_nesting(tier, seed):
              'per chain: ALL minus one needed flag (each), exactly needed, a random subset; '
              'refusal with empty side-effect log, or equality with exec'))
   chk = Checker(rec)
-  # Baseline knowledge so that nested ids point at the leaf when the leaf itself is ungated.
-  for leaf in LEAVES:
-    prog = assemble([leaf.name] if leaf.needs != 'async' else ['async-def-body', leaf.name])
-    for f in leaf.hard:
-      got = library(prog[0], ALL & ~f, APIS[0])
-      if not (got['outcome'] == 'CodeError' and got['log'] == []):
-        chk.baseline_bad.add((leaf.name, f))
+  chk.learn_baseline(LEAVES)
   r = rng(seed, 'c19-deep')
   done = 0
   tries = 0
@@ -651,7 +729,7 @@ def drv_refusal_deep_nesting(tier, seed):
     done += 1
     src, hard, soft = prog
     need = perm_of(hard | soft)
-    api = APIS[done % len(APIS)]
+    api = r.choice(APIS)
     for f in sorted(hard, key=FLAGS.index):
       chk.refusal(chain, src, hard, ALL & ~f, api, 'deep')
     sub = perm_of(r.sample(FLAGS, r.randrange(0, 9)))
@@ -666,8 +744,16 @@ def drv_refusal_deep_nesting(tier, seed):
 # Nested permission scopes: the outermost scope bounds everything inside.
 # ---------------------------------------------------------------------------
 
-def run_nested(src, p_outer, p_inner, p_arg):
-  """with permission(p_outer): [with permission(p_inner):] evaluate(src[, permission=p_arg])."""
+ENTRIES = {
+    'evaluate': lambda src, g, kw: pg.coding.evaluate(src, global_vars=g, **kw),
+    'run': lambda src, g, kw: pg.coding.run(src, global_vars=g, sandbox=False, **kw),
+    'maybe_sandbox_call': lambda src, g, kw: pg.coding.maybe_sandbox_call(
+        pg.coding.evaluate, src, global_vars=g, sandbox=False, **kw),
+}
+
+
+def run_nested(src, p_outer, p_inner, p_arg, entry='evaluate'):
+  """with permission(p_outer): [with permission(p_inner):] <entry>(src[, permission=p_arg])."""
   s = Sentinel()
   g = {'S': s, 'hitcount_': 0}
   res = dict(outcome='ok', cause=None, seen=None, yielded=None)
@@ -677,11 +763,17 @@ def run_nested(src, p_outer, p_inner, p_arg):
         res['seen'] = pg.coding.get_permission()
         res['yielded'] = (y1, y2)
         kw = {} if p_arg is None else {'permission': p_arg}
-        pg.coding.evaluate(src, global_vars=g, **kw)
+        try:
+          ENTRIES[entry](src, g, kw)
+        finally:
+          res['after_call'] = pg.coding.get_permission()
       res['after_inner'] = pg.coding.get_permission()
     res['after_outer'] = pg.coding.get_permission()
   except pg.coding.CodeError as e:
     res.update(outcome='CodeError', cause=type(e.cause).__name__)
+    res['after_outer'] = pg.coding.get_permission()
+  except Exception as e:  # pylint: disable=broad-except
+    res.update(outcome='raised-' + type(e).__name__, cause=type(e).__name__)
     res['after_outer'] = pg.coding.get_permission()
   res['log'] = _norm(s.log)
   return res
@@ -692,11 +784,13 @@ def drv_nested_scopes(tier, seed):
   rec = Recorder(
       'C19', 'nested pg.coding.permission scopes and the permission= argument can only narrow',
       scope=('top-level leaf programs x (outer scope, optional inner scope, optional permission= '
-             'argument): outer in {ALL minus a needed flag, exactly needed, ALL}, inner/argument in '
-             '{ALL, exactly needed, needed minus a flag, empty, absent} ('
+             'argument) x entry point {evaluate, run(sandbox=False), maybe_sandbox_call(evaluate, '
+             'sandbox=False)}: outer in {ALL minus a needed flag, exactly needed, ALL, ALL minus an unneeded '
+             'flag, empty}, inner/argument in {ALL, exactly needed, needed minus a flag, empty, ALL minus a '
+             'needed flag (incomparable with the last outer), absent} ('
              + ('seeded third of the combinations' if quick else 'all combinations')
-             + '); refusal whenever the outermost scope lacks a needed flag (nothing runs), run when '
-             'every level grants everything; get_permission() inside and after'))
+             + '); refusal whenever any level lacks a needed flag (nothing runs), run when '
+             'every level grants everything; get_permission() inside, after the call and after the scopes'))
   r = rng(seed, 'c19-scopes')
   for leaf in LEAVES:
     if leaf.needs == 'async':
@@ -704,45 +798,54 @@ def drv_nested_scopes(tier, seed):
     src, hard, soft = assemble([leaf.name])
     need = perm_of(hard | soft)
     f0 = sorted(hard, key=FLAGS.index)[0]
-    outers = [ALL & ~f0, need, ALL]
-    inners = [None, ALL, need, need & ~f0, P(0)]
-    for po, pi, pa in itertools.product(outers, inners, inners):
+    u = next(f for f in FLAGS if f not in hard | soft)          # a flag the program does not need
+    outers = [ALL & ~f0, need, ALL, ALL & ~u, P(0)]
+    inners = [None, ALL, need, need & ~f0, P(0), ALL & ~f0]     # the last: incomparable with ALL & ~u
+    ref = reference(src)
+    for entry, po, pi, pa in itertools.product(ENTRIES, outers, inners, inners):
       if quick and r.random() > 0.34:
         continue
-      res = run_nested(src, po, pi, pa)
+      res = run_nested(src, po, pi, pa, entry)
+      via = '' if entry == 'evaluate' else f'/via-{entry}'
       levels = [p for p in (po, pi, pa) if p is not None]
       desc = (f'with permission({perm_src(po)}): '
               + (f'with permission({perm_src(pi)}): ' if pi is not None else '')
-              + 'evaluate(code' + (f', permission={perm_src(pa)}' if pa is not None else '') + ')')
+              + f'{entry}(code' + (f', permission={perm_src(pa)}' if pa is not None else '') + ')')
       wit = ('import pyglove as pg, bounded.c19_permission as m\nP = pg.coding.CodePermission\n'
              f'r = m.run_nested({src!r}, {perm_src(po)}, {perm_src(pi) if pi is not None else None}, '
-             f'{perm_src(pa) if pa is not None else None})\n')
+             f'{perm_src(pa) if pa is not None else None}, {entry!r})\n')
+      key = (leaf.name, entry, po.value, pi and pi.value, pa and pa.value)
       if any(not f & po for f in hard):
         ok = res['outcome'] == 'CodeError' and res['log'] == []
         what = ('permission-argument-widens-enclosing-scope' if pa is not None and not any(not f & pa for f in hard)
                 else 'inner-scope-widens-outer-scope' if pi is not None else 'outer-scope-not-applied')
-        rec.case(f'nested-scope/{what}', (leaf.name, po.value, pi and pi.value, pa and pa.value), ok=ok,
+        rec.case(f'nested-scope/{what}{via}', key, ok=ok,
                  message=f"{desc}: outcome {res['outcome']}, side effects {res['log']!r}; code {src!r}",
                  witness=wit + "assert r['outcome'] == 'CodeError' and r['log'] == [], r\n")
       elif all(not any(not f & p for f in hard | soft) for p in levels):
         ok = res['outcome'] == 'ok' and res['log'] != []
-        ref = reference(src)
         if ref['outcome'] != 'ok':
           ok = res['outcome'] == 'CodeError' and res['cause'] == ref['outcome']
-        rec.case('nested-scope/granted-at-every-level-runs', (leaf.name, po.value, pi and pi.value, pa and pa.value),
+        rec.case(f'nested-scope/granted-at-every-level-runs{via}', key,
                  ok=ok, message=f"{desc}: outcome {res['outcome']}({res['cause']}); code {src!r}",
                  witness=wit + f"assert r['outcome'] == {'ok' if ref['outcome'] == 'ok' else 'CodeError'!r}, r\n")
       elif pa is not None and any(not f & pa for f in hard):
+        # the enclosing scopes grant the construct, the explicit argument does not
         ok = res['outcome'] == 'CodeError' and res['log'] == []
-        rec.case('nested-scope/narrower-permission-argument-refuses', (leaf.name, po.value, pi and pi.value, pa.value),
+        rec.case(f'nested-scope/narrower-permission-argument-refuses{via}', key,
                  ok=ok, message=f"{desc}: outcome {res['outcome']}, side effects {res['log']!r}; code {src!r}",
                  witness=wit + "assert r['outcome'] == 'CodeError' and r['log'] == [], r\n")
       if res['seen'] is not None:
-        rec.case('nested-scope/get_permission-inside-is-outermost', (leaf.name, po.value, pi and pi.value),
+        rec.case('nested-scope/get_permission-inside-is-outermost', key,
                  ok=res['seen'] == po and res['yielded'][0] == po and (pi is None or res['yielded'][1] == po),
                  message=f"{desc}: get_permission() = {res['seen']!r}, yielded {res['yielded']!r}",
                  witness=wit + f"assert r['seen'] == {perm_src(po)}, r['seen']\n")
-      rec.case('nested-scope/permission-restored-after-exit', (leaf.name, po.value, pi and pi.value, pa and pa.value),
+      if 'after_call' in res:
+        rec.case(f'nested-scope/call-leaves-enclosing-scope-unchanged{via}', key,
+                 ok=res['after_call'] == po,
+                 message=f"{desc}: get_permission() after the call, still inside the scopes: {res['after_call']!r}",
+                 witness=wit + f"assert r['after_call'] == {perm_src(po)}, r['after_call']\n")
+      rec.case('nested-scope/permission-restored-after-exit', key,
                ok=res.get('after_outer') is None and res.get('after_inner', po) == po,
                message=f"{desc}: after inner {res.get('after_inner')!r}, after outer {res.get('after_outer')!r}",
                witness=wit + "assert r['after_outer'] is None and r.get('after_inner', 1) in (1, " + perm_src(po) + "), r\n")
@@ -823,6 +926,21 @@ class _Gen:
       return 'S.n'
     return f'len(str({self.expr(d + 1)}))'
 
+  def mixed_assignment(self):
+    """Assignment whose targets mix names, attributes, items, tuples (chained or not)."""
+    r = self.r
+    v, w = self.fresh(), self.fresh()
+    form = r.choice([
+        '{v} = S.attr = {e}', 'S.attr = {v} = {e}', '{v} = S.d[{k}] = {e}', 'S.d[{k}] = {v} = {e}',
+        '{v} = S.attr = {w} = {e}', 'S.attr = S.d[{k}] = {e}', '{v} = ({w}, S.attr) = ({e}, {e2})',
+        '({w}, S.d[{k}]) = {v} = ({e}, {e2})', '{v}, {w} = {e}, {e2}', 'S.attr, {v} = {e}, {e2}',
+        '{v} = {w} = {e}', 'S.d[{k}] = {e}', 'S.attr = {e}', '{v} = [{w}, *S.l[1:]] = [{e}, {e2}, 3]'])
+    line = form.format(v=v, w=w, k=r.randrange(0, 3), e=self.expr(1), e2=self.expr(1))
+    self.vars.append(v)
+    if '{w}' in form:
+      self.vars.append(w)
+    return line
+
   def block(self, d, n=None):
     out = []
     for _ in range(n or self.r.choice((1, 1, 2, 3))):
@@ -854,6 +972,8 @@ class _Gen:
       line = f'print(({v} := {self.expr()}) + 1)'
       self.vars.append(v)
       return [line]
+    if x < 0.535:
+      return [self.mixed_assignment()]
     if d >= 2:
       return ['S.n']
     if x < 0.58:
@@ -903,6 +1023,8 @@ class _Gen:
       lines.append(self.expr())
     elif tail < 0.5 and self.vars:
       lines.append(self.r.choice(self.vars))
+    elif tail < 0.68:
+      lines.append(self.mixed_assignment())        # the last statement is an assignment of any target mix
     return '\n'.join(lines)
 
 
@@ -911,7 +1033,8 @@ def drv_random_programs(tier, seed):
   rec = Recorder(
       'C19', 'random structured programs: granted -> same as exec; one needed flag missing -> refused, nothing ran',
       scope=(f'{n} seeded programs (2..5 top-level statements, nesting<=2) with assignments of all '
-             'kinds, prints, if/for/while, def+calls, classes, try/except/finally, imports, asserts, '
+             'kinds (chained / tuple / starred / attribute / item targets in every mix, also as the '
+             'last statement), prints, if/for/while, def+calls, classes, try/except/finally, imports, asserts, '
              'uncaught errors at arbitrary lines, lambdas, comprehensions; needed flags by an own '
              'AST table; runs with ALL and with exactly the needed set are compared with exec '
              '(outcome, cause, line, stdout, variables, result, sentinel log); every needed-minus-'
@@ -924,7 +1047,7 @@ def drv_random_programs(tier, seed):
       continue
     hard, soft = classify(src)
     need = perm_of(hard | soft)
-    api = APIS[k % len(APIS)]
+    api = APIS[(k // 2) % len(APIS)]          # k alternates ALL / exactly-needed: both with every entry point
     ref = reference(src)
     chk.execution(['random-program'], src, ALL if k % 2 else need, api, 'random', ref)
     for f in sorted(hard, key=FLAGS.index):
@@ -940,7 +1063,7 @@ def drv_errors_and_edge_sources(tier, seed):
   del tier, seed
   rec = Recorder(
       'C19', 'fixed edge sources: empty code, syntax errors, errors at known lines, stdout capture, parse()',
-      scope='hand-picked sources through all 4 entry points, ALL granted and no permission given')
+      scope=f'hand-picked sources through all {len(APIS)} entry points / ways of granting, ALL granted')
   cases = [
       ('empty', ''), ('comment-only', '# nothing'), ('expression', '1 + 2'),
       ('syntax-error-line-2', 'x = 1\ny = = 2'), ('syntax-error-line-1', 'def'),
@@ -966,6 +1089,8 @@ def drv_errors_and_edge_sources(tier, seed):
     for api in APIS:
       for perm in (ALL,):
         if not src.strip() or src.lstrip().startswith('#'):
+          if api not in DICT_APIS:
+            continue
           got = library(src, perm, api)
           rec.case(f'edge/{name}', (name, api), ok=got['outcome'] == 'ok' and got['vars'] == {},
                    message=f'{got}', witness=_wit(src, perm, api, "assert r['outcome'] == 'ok' and r['vars'] == {}, r\n"))
@@ -995,8 +1120,433 @@ def drv_errors_and_edge_sources(tier, seed):
   return rec.result()
 
 
+# ---------------------------------------------------------------------------
+# Position of run-time errors: a line of the evaluated program, whatever other
+# code the error travels through on its way out.
+# ---------------------------------------------------------------------------
+
+_HELPER_SRC = '\n' * 70 + '''def H(x):
+  return 1 // x
+def H2(x):
+  y = x
+  return H(y)
+def HCB(f):
+  return f()
+class XO:
+  @property
+  def prop(self):
+    return 1 // 0
+  def __add__(self, other):
+    return {}['missing']
+  def __getitem__(self, k):
+    raise LookupError('no item')
+  def __iter__(self):
+    raise ValueError('no iteration')
+  def __bool__(self):
+    raise ValueError('no truth value')
+XOBJ = XO()
+'''
+_CODE_FEXPRS = ['H(0)', 'H2(0)', 'HCB(lambda: 1 // 0)', 'XOBJ.prop', 'XOBJ + 1', 'XOBJ[0]', '[*XOBJ]', 'not XOBJ']
+
+
+def _module_level_helper(x):
+  return 1 // x
+
+
+def _nested_evaluate(x):
+  return pg.coding.evaluate('\n' * 40 + f'u = 1\n1 // {x}', permission=perm_of(FLAGS))
+
+
+def _compiled_helpers(filename):
+  def build():
+    ns = {}
+    if filename is None:
+      exec(_HELPER_SRC, ns)  # pylint: disable=exec-used     (file name '<string>')
+    else:
+      exec(compile(_HELPER_SRC, filename, 'exec'), ns)  # pylint: disable=exec-used
+    return {k: ns[k] for k in ('H', 'H2', 'HCB', 'XOBJ')}
+  return build
+
+
+def _evaluated_helpers():
+  """Functions and objects defined by an EARLIER evaluation (a previous cell of a session)."""
+  out = pg.coding.evaluate(_HELPER_SRC, permission=perm_of(FLAGS), outputs_intermediate=True)
+  return {k: out[k] for k in ('H', 'H2', 'HCB', 'XOBJ')}
+
+
+def _pg_make_function():
+  return {'MF': pg.coding.make_function('MF', ['x'], ['y = x', 'z = y', 'w = z', 'return 1 // w'])}
+
+
+def _pg_object_getter():
+  class FailingInference(pg.symbolic.InferredValue):
+    def infer(self, **kwargs):
+      raise LookupError('registry is empty')
+
+  class Holder(pg.Object):
+    x: int = FailingInference()
+    y: int = 1
+  return {'POBJ': Holder()}
+
+
+def _pg_functor():
+  @pg.functor()
+  def fun(x):
+    return 1 // x
+  return {'FUN': fun(0)}
+
+
+def _pg_object_method():
+  class WithMethod(pg.Object):
+    x: int
+
+    def m(self):
+      return 1 // self.x
+  return {'POBJ2': WithMethod(0)}
+
+
+# kind of code the error passes through -> (builder of the globals handed to the program, failing expressions)
+FOREIGN = {
+    'program-frames-only': (dict, ['1 // 0', '{}[1]', 'undefined_name_', 'S.one[5]']),
+    'code-from-exec-of-source-text': (_compiled_helpers(None), _CODE_FEXPRS),
+    'code-compiled-with-filename:<string>': (_compiled_helpers('<string>'), _CODE_FEXPRS),
+    'code-compiled-with-filename:empty': (_compiled_helpers(''), _CODE_FEXPRS),
+    'code-compiled-with-filename:<stdin>': (_compiled_helpers('<stdin>'), _CODE_FEXPRS),
+    'code-compiled-with-filename:<unknown>': (_compiled_helpers('<unknown>'), _CODE_FEXPRS),
+    'code-compiled-with-filename:<generated-code>': (_compiled_helpers('<generated-code>'), _CODE_FEXPRS),
+    'code-compiled-with-filename:helpers.py': (_compiled_helpers('helpers.py'), _CODE_FEXPRS),
+    'code-defined-by-an-earlier-evaluate': (_evaluated_helpers, _CODE_FEXPRS),
+    'regular-module-function': (lambda: {'RH': _module_level_helper}, ['RH(0)']),
+    'pg.coding.make_function': (_pg_make_function, ['MF(0)']),
+    'pg.Object-symbolic-attribute-getter': (_pg_object_getter, ['POBJ.x', 'POBJ.y + POBJ.x']),
+    'pg.functor-call': (_pg_functor, ['FUN()']),
+    'pg.Object-method': (_pg_object_method, ['POBJ2.m()']),
+    'nested-pg.coding.evaluate': (lambda: {'NE': _nested_evaluate}, ['NE(0)']),
+}
+
+
+def _deep(n, last_is_expression=False):
+  lines = ['def f1():', '  a = 1', '  return <F>']
+  for k in range(2, n + 1):
+    lines += [f'def f{k}():', '  a = 1', '  a += 1', f'  return f{k - 1}()']
+  lines += ['b = 1', f'f{n}()' if last_is_expression else f'c = f{n}()'] + ([] if last_is_expression else ['d = 2'])
+  return '\n'.join(lines)
+
+
+SHAPES = {
+    'expression-statement/middle': 'a = 1\n<F>\nb = 2',
+    'expression/last': 'a = 1\nb = 2\n<F>',
+    'assignment-value/middle': 'a = 1\nb = <F>\nc = 2',
+    'assignment-value/last-name-target': 'a = 1\nb = <F>',
+    'assignment-value/last-attribute-target': 'a = 1\nS.attr = <F>',
+    'assignment-value/last-chain-of-name-and-item': 'a = 1\na = 2\nb = S.d[0] = <F>',
+    'augmented-assignment-value/last': 'a = 1\na += <F>',
+    'if-body': 'a = 1\nif S.t:\n  a = 2\n  <F>\nb = 3',
+    'if-test': 'a = 1\nif <F>:\n  a = 2\nb = 3',
+    'for-body': 'for i in S.two:\n  S.n\n  <F>',
+    'while-body': 'while S.once:\n  S.n\n  <F>\nb = 1',
+    'try-finally-body': 'try:\n  a = 1\n  <F>\nfinally:\n  S.t',
+    'except-handler-reraises': 'try:\n  a = 1\n  <F>\nexcept Exception:\n  S.t\n  raise\nb = 1',
+    'raised-from-handler': 'try:\n  {}[0]\nexcept KeyError:\n  S.t\n  <F>',
+    'with-body': 'with S.cm:\n  a = 1\n  <F>',
+    'multi-line-statement': 'a = [1,\n  2,\n  <F>,\n  4]\nb = 1',
+    'call-argument': 'a = 1\nS.f(1,\n  <F>)\nb = 2',
+    'inside-lambda': 'g = lambda: <F>\nb = 1\ng()\nc = 1',
+    'inside-comprehension': 'a = 1\nb = [<F> for _ in S.one]\nc = 1',
+    'inside-class-body': 'class K:\n  a = 1\n  z = <F>\nb = 2',
+    'inside-method': 'class K:\n  def m(self):\n    a = 1\n    return <F>\nk = K()\nk.m()',
+    'inside-generator': 'def g():\n  yield 1\n  yield <F>\nb = list(g())\nc = 1',
+    'default-argument': 'a = 1\ndef f(x=<F>):\n  pass\nb = 1',
+    'function/1-call-deep': _deep(1),
+    'function/2-calls-deep': _deep(2),
+    'function/3-calls-deep': _deep(3),
+    'function/4-calls-deep': _deep(4),
+    'function/6-calls-deep': _deep(6),
+    'function/2-calls-deep-from-last-expression': _deep(2, True),
+    'function/4-calls-deep-from-last-expression': _deep(4, True),
+}
+_POS_PREFIX = 'S.hit\n' + '#\n' * 6      # every line of interest is > 7: never a line number of generated pyglove code
+
+
+def position_program(fexpr, shape):
+  return _POS_PREFIX + SHAPES[shape].replace('<F>', fexpr)
+
+
+_FOREIGN_CACHE = {}
+
+
+def foreign_globals(kind):
+  if kind not in _FOREIGN_CACHE:
+    _FOREIGN_CACHE[kind] = FOREIGN[kind][0]()
+  return _FOREIGN_CACHE[kind]
+
+
+def position_case(kind, fexpr, shape, api, perm=None):
+  """None when the error is reported as exec reports it (cause, message, program line), else text."""
+  src = position_program(fexpr, shape)
+  g = foreign_globals(kind)
+  ref = reference(src, g)
+  if ref['outcome'] == 'ok':
+    return 'harness: the program does not fail'
+  got = library(src, perm_of(FLAGS) if perm is None else perm, api, g)
+  msg = same_execution(ref, got)
+  if msg is None and got['code'] != src:
+    msg = f"CodeError.code is not the program text: {got['code']!r}"
+  if msg is None and got['lineno'] is not None:
+    # the reported range stays inside the statement that contains the reported line
+    spans = [(n.lineno, n.end_lineno) for n in ast.walk(ast.parse(src))
+             if isinstance(n, ast.stmt) and n.lineno <= got['lineno'] <= n.end_lineno]
+    lo, hi = min(spans, key=lambda se: se[1] - se[0]) if spans else (got['lineno'], got['lineno'])
+    if got['end_lineno'] is None or not got['lineno'] <= got['end_lineno'] <= max(e for _, e in spans or [(lo, hi)]):
+      msg = f"CodeError.end_lineno = {got['end_lineno']!r} for lineno = {got['lineno']} (statement lines {lo}..{hi})"
+  return msg
+
+
+def drv_error_position(tier, seed):
+  quick = tier == 'quick'
+  rec = Recorder(
+      'C19', 'errors raised by a granted program: cause, message and a position IN THE PROGRAM, '
+             'whatever code the error passes through',
+      scope=(f'{sum(len(v[1]) for v in FOREIGN.values())} failing expressions (plain; calls, operators, '
+             'attribute/item access, iteration, truth value of objects whose code was compiled from text '
+             'with file names <string>, empty, <stdin>, <unknown>, <generated-code>, a .py name, or defined '
+             'by an earlier evaluate; module function; pg.coding.make_function; symbolic attribute getter '
+             'with a failing inferred value; functor; pg.Object method; nested evaluate; callback into the '
+             f'program) x {len(SHAPES)} places (statement kinds, last expression / last assignment of each '
+             'target mix, bodies, handlers, multi-line statements, lambdas, comprehensions, class bodies, '
+             'generators, 1..6 calls deep) x '
+             + ('2 of the entry points (rotating)' if quick else 'all entry points')
+             + '; compared with exec of the same text: exception class, message, line in {top-level '
+             'statement, innermost frame of the program}, side effects before the error, end_lineno '
+             'inside the statement, CodeError.code'))
+  n = 0
+  r = rng(seed, 'c19-position')
+  for kind, (_, fexprs) in FOREIGN.items():
+    try:
+      foreign_globals(kind)
+    except Exception as e:  # pylint: disable=broad-except
+      rec.case(f'error-position/{kind}/cannot-build-the-helper-objects', kind, ok=False,
+               message=f'{type(e).__name__}: {e}',
+               witness=f'import bounded.c19_permission as m\nm.foreign_globals({kind!r})\n')
+      continue
+    for fexpr in fexprs:
+      for shape in SHAPES:
+        src = position_program(fexpr, shape)
+        if not valid_python(src):
+          continue
+        n += 1
+        apis = r.sample(APIS, 2) if quick else APIS
+        for api in dict.fromkeys(apis):
+          try:
+            msg = position_case(kind, fexpr, shape, api)
+          except Exception as e:  # pylint: disable=broad-except
+            msg = f'unexpected {type(e).__name__}: {e}'
+          what = _diff_kind(msg) if msg else 'same'
+          if kind == 'program-frames-only':
+            depth = shape if shape.startswith('function/') else 'top-level-frame-only'
+            cid = f'error-position/{kind}/{depth}/{what}'
+          else:
+            cid = f'error-position/through-{kind}/{what}'
+          rec.case(cid, (kind, fexpr, shape, api), ok=msg is None,
+                   message=f'{api}: {msg}; failing expression {fexpr!r} in {src!r}',
+                   witness=('import bounded.c19_permission as m\n'
+                            f'msg = m.position_case({kind!r}, {fexpr!r}, {shape!r}, {api!r})\n'
+                            'assert msg is None, msg\n'))
+  return rec.result()
+
+
+# ---------------------------------------------------------------------------
+# pg.coding.run with a sandbox (child process): same refusals, same results.
+# ---------------------------------------------------------------------------
+
+@contextlib.contextmanager
+def _child_processes_allowed():
+  """`./check` runs each driver in a daemonic process and multiprocessing refuses to start
+  children from daemons; the sandbox of pg.coding.run is such a child.  Lift the flag of
+  THIS (already forked, private) driver process while sandboxed calls are made."""
+  import multiprocessing
+  cfg = multiprocessing.current_process()._config   # pylint: disable=protected-access
+  old = cfg.get('daemon')
+  cfg['daemon'] = False
+  try:
+    yield
+  finally:
+    if old is None:
+      cfg.pop('daemon', None)
+    else:
+      cfg['daemon'] = old
+
+
+class SharedSentinel(Sentinel):
+  """Counts accesses in shared memory: visible to the parent when the program ran in a child."""
+
+  def __init__(self, counter):
+    super().__init__()
+    object.__setattr__(self, 'counter', counter)
+
+  def __getattr__(self, name):
+    c = object.__getattribute__(self, 'counter')
+    with c.get_lock():
+      c.value += 1
+    return Sentinel.__getattr__(self, name)
+
+
+def _picklable(v):
+  import pickle
+  try:
+    pickle.dumps(v)
+    return True
+  except Exception:  # pylint: disable=broad-except
+    return False
+
+
+def sandboxed(src, p_arg, p_scope, sandbox, counter, extra_globals=None):
+  """[with permission(p_scope):] pg.coding.run(src[, permission=p_arg], sandbox=sandbox)."""
+  s = SharedSentinel(counter)
+  g = {'S': s, 'hitcount_': 0}
+  g.update(extra_globals or {})
+  counter.value = 0
+  kw = {} if p_arg is None else {'permission': p_arg}
+  res = dict(outcome='ok', lineno=None, end_lineno=None, result=('<none>',), stdout='', vars={},
+             cause=None, message=None, code=None, mode='dict')
+  try:
+    with _child_processes_allowed():
+      with (pg.coding.permission(p_scope) if p_scope is not None else contextlib.nullcontext()):
+        out = pg.coding.run(src, global_vars=g, outputs_intermediate=True, sandbox=sandbox, timeout=60, **kw)
+    res['stdout'] = out.pop('__stdout__', '')
+    if '__result__' in out:
+      res['result'] = _norm(out.pop('__result__'))
+    res['vars'] = {k: _norm(v) for k, v in out.items()}
+  except pg.coding.CodeError as e:
+    res.update(outcome='CodeError', cause=type(e.cause).__name__, lineno=e.lineno,
+               end_lineno=e.end_lineno, message=_norm(str(e.cause)), code=e.code)
+  except BaseException as e:  # pylint: disable=broad-except
+    res.update(outcome='raised-' + type(e).__name__, cause=type(e).__name__, message=str(e)[:200])
+  res['touched'] = counter.value
+  res['log'] = []
+  return res
+
+
+def _raw_outputs(src, extra_globals=None):
+  """(new variables, value of the last expression) of plain exec, un-normalised."""
+  g = {'S': Sentinel(), 'hitcount_': 0}
+  g.update(extra_globals or {})
+  before = dict(g)
+  result = None
+  try:
+    tree = ast.parse(src)
+    last = tree.body[-1] if tree.body else None
+    with contextlib.redirect_stdout(io.StringIO()):
+      if isinstance(last, ast.Expr):
+        tree.body.pop()
+        exec(compile(tree, '<ref>', 'exec'), g)  # pylint: disable=exec-used
+        result = eval(compile(ast.Expression(last.value), '<ref>', 'eval'), g)  # pylint: disable=eval-used
+      else:
+        exec(compile(tree, '<ref>', 'exec'), g)  # pylint: disable=exec-used
+  except Exception:  # pylint: disable=broad-except
+    pass
+  return {k: v for k, v in g.items() if k != '__builtins__' and (k not in before or v is not before[k])}, result
+
+
+SANDBOX_GRANTS = {          # name -> (permission= argument, enclosing scope) given the effective permission p
+    'permission-argument-only': lambda p: (p, None),
+    'permission-argument-inside-wider-scope': lambda p: (p, ALL),
+    'scope-only': lambda p: (None, p),
+    'wider-permission-argument-inside-scope': lambda p: (ALL, p),
+}
+
+
+def sandbox_case(kind, src, p_eff, grant, sandbox, extra_kind=None):
+  """kind 'refuse' | 'same'.  None when fine, else text."""
+  import multiprocessing
+  counter = multiprocessing.Value('i', 0)
+  extra = foreign_globals(extra_kind) if extra_kind else None
+  p_arg, p_scope = SANDBOX_GRANTS[grant](p_eff)
+  got = sandboxed(src, p_arg, p_scope, sandbox, counter, extra)
+  if kind == 'refuse':
+    if got['outcome'] != 'CodeError' or got['touched']:
+      return f"outcome {got['outcome']}({got['cause']}: {got['message']}), {got['touched']} accesses of S happened"
+    return None
+  ref = reference(src, extra)
+  if got['outcome'] == 'raised-SerializationError' and sandbox is True and ref['outcome'] == 'ok':
+    if not _picklable(_raw_outputs(src, extra)):
+      return None           # the outputs cannot cross the process boundary: nothing to compare
+  msg = same_execution(ref, got, judge_log=False)
+  if msg is None and ref['log'] and not got['touched']:
+    msg = 'the program reports success but never ran'
+  return msg
+
+
+def drv_sandboxed_run(tier, seed):
+  quick = tier == 'quick'
+  rec = Recorder(
+      'C19', 'pg.coding.run(sandbox=True / None): a child process refuses and executes like evaluate',
+      scope=('top-level leaf programs x sandbox in {True, None} x how the permission is given '
+             f'({", ".join(SANDBOX_GRANTS)}): ALL minus each needed flag -> code error and no access of the '
+             'sentinel in any process (shared-memory counter); exactly needed -> outcome, result, '
+             'stdout, variables of exec (skipped when the variables cannot be pickled and sandbox=True); '
+             'run-time errors raised in the child: cause, message, line ('
+             + ('2 of the 8 combinations per program, rotating' if quick else 'all combinations') + ')'))
+  combos = list(itertools.product(SANDBOX_GRANTS, (True, None)))
+  n = 0
+
+  timeouts = [0]
+
+  def emit(cid, key, kind, src, p_eff, grant, sandbox, extra_kind=None):
+    if timeouts[0] >= 3:
+      return                        # a sandbox that hangs: reported three times, do not wait for the rest
+    try:
+      msg = sandbox_case(kind, src, p_eff, grant, sandbox, extra_kind)
+    except Exception as e:  # pylint: disable=broad-except
+      msg = f'unexpected {type(e).__name__}: {e}'
+    if msg and 'TimeoutError' in msg:
+      timeouts[0] += 1
+    rec.case(cid, key, ok=msg is None,
+             message=f'run(sandbox={sandbox}), {grant}, effective permission {perm_src(p_eff)}: {msg}; code {src!r}',
+             witness=('import pyglove as pg, bounded.c19_permission as m\nP = pg.coding.CodePermission\n'
+                      f'msg = m.sandbox_case({kind!r}, {src!r}, {perm_src(p_eff)}, {grant!r}, {sandbox!r}, {extra_kind!r})\n'
+                      'assert msg is None, msg\n'))
+
+  for leaf in LEAVES:
+    if leaf.needs == 'async':
+      continue
+    src, hard, soft = assemble([leaf.name])
+    need = perm_of(hard | soft)
+    for f in sorted(hard, key=FLAGS.index):
+      n += 1
+      for j, (grant, sandbox) in enumerate(combos):
+        if quick and (j + n + seed) % 4:
+          continue
+        emit(f'sandbox={sandbox}/refuse/{grant}', (leaf.name, NAMES[f], grant, sandbox),
+             'refuse', src, ALL & ~f, grant, sandbox)
+    n += 1
+    for j, (grant, sandbox) in enumerate(combos):
+      if quick and (j + n + seed) % 4:
+        continue
+      emit(f'sandbox={sandbox}/granted-program-equals-exec/{grant}', (leaf.name, grant, sandbox),
+           'same', src, need, grant, sandbox)
+  # run-time errors raised in the child process
+  shapes = ['expression-statement/middle', 'expression/last', 'assignment-value/last-chain-of-name-and-item',
+            'inside-class-body', 'function/2-calls-deep', 'function/4-calls-deep']
+  for kind, fexpr in [('program-frames-only', '1 // 0'), ('code-from-exec-of-source-text', 'H(0)'),
+                      ('code-compiled-with-filename:empty', 'XOBJ.prop'),
+                      ('pg.coding.make_function', 'MF(0)'),
+                      ('pg.Object-symbolic-attribute-getter', 'POBJ.x')]:
+    try:
+      foreign_globals(kind)
+    except Exception:  # pylint: disable=broad-except
+      continue                      # reported by drv_error_position
+    for i, shape in enumerate(shapes):
+      src = position_program(fexpr, shape)
+      sandbox = (True, None)[(i + seed) % 2]
+      emit(f'sandbox={sandbox}/error-position/through-{kind}', (kind, fexpr, shape, sandbox),
+           'same', src, ALL, 'permission-argument-only', sandbox, kind)
+  return rec.result()
+
+
 DRIVERS = [drv_refusal_every_position, drv_refusal_expression_forms, drv_refusal_deep_nesting,
-           drv_nested_scopes, drv_random_programs, drv_errors_and_edge_sources]
+           drv_nested_scopes, drv_random_programs, drv_errors_and_edge_sources, drv_error_position,
+           drv_sandboxed_run]
 EXTRA_DRIVERS = [drv_refusal_implicit_forms]     # interpretation dependent, see docstring
 
 
